@@ -352,6 +352,39 @@ def lines(s):
     return out, nlines
 
 
+def find_sub(s, pat):
+    """(found, index) of the first occurrence of the concrete non-empty string `pat`"""
+    m = len(pat)
+    found = FALSE
+    idx = L(0)
+    for k in range(s.cap - m, -1, -1):
+        h = And(*[ceq(s.chars[k + j], pat[j]) for j in range(m)])
+        idx = Ite(h, L(k), idx)
+        found = Or(h, found)
+    return found, idx
+
+
+def split(s, pat):
+    """str::split(pattern) for a concrete non-empty pattern: the pieces between the leftmost
+    non-overlapping occurrences, empty pieces included; always at least one piece"""
+    m = len(pat)
+    out = []
+    rest = s
+    alive = TRUE
+    n = L(0)
+    for j in range(s.cap // m + 1):
+        found, idx = find_sub(rest, pat)
+        piece = ite(found, prefix(rest, idx), rest)
+        out.append(piece)
+        n = Add(n, b2bv(alive, LB))
+        alive = And(alive, found)
+        if is_f(alive) or rest.cap < m:
+            break
+        nxt = Add(idx, L(m))
+        rest = ite(found, BStr(Sub(rest.n, nxt), shift_left(rest.chars, nxt, rest.cap)[:max(0, rest.cap - m)]), EMPTY)
+    return out, n
+
+
 def split_whitespace(s):
     out = []
     rest = trim_start(s)
